@@ -66,8 +66,24 @@ class Helpers:
         }
 
 
+def reset_memo_tables():
+    """Clear functools caches defined in ptera's modules: a memo must not carry one path's history into the next
+    (the unchanged library has none; a change that adds one is then exercised from an empty table on every path)."""
+    import sys
+
+    for mname, m in list(sys.modules.items()):
+        if mname == "ptera" or mname.startswith("ptera."):
+            for obj in list(vars(m).values()):
+                if callable(getattr(obj, "cache_clear", None)):
+                    try:
+                        obj.cache_clear()
+                    except Exception:  # pragma: no cover
+                        pass
+
+
 def load(tmpl, twin=False, recorder=None):
     """Fresh namespace (fresh function objects) for a template; returns (ns, helpers)."""
+    reset_memo_tables()
     H = Helpers()
     extra = H.namespace()
     src = tmpl["src"]
